@@ -51,7 +51,8 @@ def run(ctx):
     for (req, i, m, it, mt) in runner.run_all(reqs):
         c = runner.outcome_class(i)
         classes[c] += 1
-        if c != runner.outcome_class(m) and all(ord(ch) < 128 and ch != '\x00' for ch in req[2]):
+        # (an exhausted wall-clock budget is compared with the model only after it has been re-run alone, below: on a loaded machine budgets fire spuriously)
+        if c != 'timeout' and c != runner.outcome_class(m) and all(ord(ch) < 128 and ch != '\x00' for ch in req[2]):
             corr_broken.append(dict(request=[req[0], req[1], req[2][:2000]], impl=i[:300], model=m[:300]))
         if c == 'timeout':
             timeouts.append((req, m)); continue
@@ -70,6 +71,8 @@ def run(ctx):
             classes['timeout-not-rerun'] += 1; continue
         again = runner.confirm_alone(req, timeout=60)
         c = runner.outcome_class(again)
+        if c != runner.outcome_class(m) and all(ord(ch) < 128 and ch != '\x00' for ch in req[2]):
+            corr_broken.append(dict(request=[req[0], req[1], req[2][:2000]], impl=again[:300], model=m[:300]))
         if c != 'timeout':
             classes['timeout-not-confirmed'] += 1; classes[c] += 1
             if c.startswith('foreign:') or c == 'other': bad(req, again, c)
